@@ -58,6 +58,8 @@ type c06cfg struct {
 	readers int
 	rounds  int
 	keys    int
+	// prepopulate: the concurrent phase runs on a fresh handle over an existing database
+	prepopulate bool
 }
 
 func (c c06cfg) String() string {
@@ -314,16 +316,51 @@ func runConcurrent(c *fw.Ctx, cfg c06cfg) {
 	if cfg.async {
 		opts = append(opts, iavl.AsyncPruningOption(true))
 	}
+	w := &c06world{snaps: map[int64]model.Snap{}, hashes: map[int64][]byte{}, inUse: map[int64]int{}, obs: map[string]int{}}
+	R := ref.NewHistory(0)
+	M := model.New(0)
+	seed := c.Rng.Int63()
+	// half of the runs start from an existing database opened by a fresh handle (cold caches)
+	if cfg.prepopulate {
+		t0 := iavl.NewMutableTree(store, cfg.cache, !cfg.fast, iavl.NewNopLogger())
+		if _, err := t0.Load(); err != nil {
+			c.Violate(0, "exec|open|error", "%v", err)
+			return
+		}
+		prng := rand.New(rand.NewSource(seed + 5))
+		for v := 0; v < 6; v++ {
+			for i := 0; i < cfg.keys; i++ {
+				k, val := []byte(fmt.Sprintf("k%03d", prng.Intn(cfg.keys))), []byte(fmt.Sprintf("p%d.%d", v, i))
+				t0.Set(k, val)
+				M.Set(string(k), string(val))
+				R.Set(k, val)
+			}
+			h, ver, err := t0.SaveVersion()
+			if err != nil {
+				c.Violate(0, "exec|prepopulate|error", "%v", err)
+				return
+			}
+			R.Commit()
+			M.Commit()
+			w.snaps[ver], w.hashes[ver] = M.Vers[ver], h
+			w.published = append(w.published, ver)
+			if w.first == 0 {
+				w.first = ver
+			}
+		}
+		t0.Close()
+		for _, ver := range w.published {
+			call := w.clock.Add(1)
+			w.record(0, visEvent{"commit", ver}, call, "ok", w.clock.Add(1))
+		}
+		w.obs["prepopulated_runs"]++
+	}
 	t := iavl.NewMutableTree(store, cfg.cache, !cfg.fast, iavl.NewNopLogger(), opts...)
 	if _, err := t.Load(); err != nil {
 		c.Violate(0, "exec|open|error", "%v", err)
 		return
 	}
 	closers = append(closers, func() { t.Close() })
-	w := &c06world{snaps: map[int64]model.Snap{}, hashes: map[int64][]byte{}, inUse: map[int64]int{}, obs: map[string]int{}}
-	R := ref.NewHistory(0)
-	M := model.New(0)
-	seed := c.Rng.Int63()
 	var stop atomic.Bool
 	var wg sync.WaitGroup
 	// readers
@@ -773,6 +810,168 @@ func runExportPin(c *fw.Ctx, cfg c06cfg) {
 	c.Obs("export_pins_checked", 1)
 }
 
+// pauseStore parks one reader inside a storage Get (after the value was read) until released:
+// the storage seam is the only place where a schedule "reader has read the old entry, writer
+// commits, reader continues" can be forced without touching iavl.
+type pauseStore struct {
+	corestore.KVStoreWithBatch
+	armed   atomic.Int32 // first byte of the key space to pause on (0 = off)
+	parked  chan struct{}
+	release chan struct{}
+}
+
+func (p *pauseStore) Get(k []byte) ([]byte, error) {
+	v, err := p.KVStoreWithBatch.Get(k)
+	if a := p.armed.Load(); a != 0 && len(k) > 0 && int32(k[0]) == a && p.armed.CompareAndSwap(a, 0) {
+		p.parked <- struct{}{}
+		<-p.release
+	}
+	return v, err
+}
+
+// runSeamPause: a reader of the latest version is parked inside its storage read while the
+// writer commits a change of the same key; afterwards every version must still read exactly.
+func runSeamPause(c *fw.Ctx, cfg c06cfg) {
+	ps := &pauseStore{KVStoreWithBatch: dbm.NewMemDB(), parked: make(chan struct{}), release: make(chan struct{})}
+	w := &c06world{snaps: map[int64]model.Snap{}, hashes: map[int64][]byte{}, inUse: map[int64]int{}, obs: map[string]int{}}
+	M := model.New(0)
+	rng := c.Rng
+	t0 := iavl.NewMutableTree(ps, cfg.cache, !cfg.fast, iavl.NewNopLogger())
+	t0.Load()
+	vc := 0
+	for v := 0; v < 4; v++ {
+		for i := 0; i < cfg.keys; i++ {
+			vc++
+			k, val := []byte(fmt.Sprintf("k%03d", i)), []byte(fmt.Sprintf("v%d", vc))
+			t0.Set(k, val)
+			M.Set(string(k), string(val))
+		}
+		h, ver, err := t0.SaveVersion()
+		if err != nil {
+			c.Violate(0, "conc|pause|setup", "%v", err)
+			return
+		}
+		M.Commit()
+		w.snaps[ver], w.hashes[ver] = M.Vers[ver], h
+		w.published = append(w.published, ver)
+	}
+	t0.Close()
+	// fresh handle: cold node cache and cold fast-node cache
+	t := iavl.NewMutableTree(ps, cfg.cache, !cfg.fast, iavl.NewNopLogger())
+	if _, err := t.Load(); err != nil {
+		c.Violate(0, "conc|pause|load", "%v", err)
+		return
+	}
+	defer t.Close()
+	for round := 0; round < cfg.rounds && len(w.viol) == 0; round++ {
+		latest := w.published[len(w.published)-1]
+		snap := w.snaps[latest]
+		keys := snap.Keys()
+		if len(keys) == 0 {
+			break
+		}
+		k := []byte(keys[rng.Intn(len(keys))])
+		space := int32('s')
+		if cfg.fast && round%2 == 0 {
+			space = 'f'
+		}
+		ps.armed.Store(space)
+		type rres struct {
+			val []byte
+			err error
+		}
+		rdone := make(chan rres, 1)
+		go func() {
+			it, err := t.GetImmutable(latest)
+			if err != nil {
+				rdone <- rres{nil, err}
+				return
+			}
+			v, err := it.Get(k)
+			rdone <- rres{v, err}
+		}()
+		parked := false
+		select {
+		case <-ps.parked:
+			parked = true
+		case r := <-rdone:
+			rdone <- r
+		case <-time.After(2 * time.Second):
+		}
+		ps.armed.Store(0)
+		// the writer changes the same key and commits while the reader is parked
+		wdone := make(chan error, 1)
+		remove := rng.Intn(3) == 0
+		go func() {
+			if remove {
+				t.Remove(k)
+				M.Remove(string(k))
+			} else {
+				vc++
+				t.Set(k, []byte(fmt.Sprintf("w%d", vc)))
+				M.Set(string(k), fmt.Sprintf("w%d", vc))
+			}
+			h, ver, err := t.SaveVersion()
+			if err == nil {
+				M.Commit()
+				w.mu.Lock()
+				w.snaps[ver], w.hashes[ver] = M.Vers[ver], h
+				w.published = append(w.published, ver)
+				w.mu.Unlock()
+			}
+			wdone <- err
+		}()
+		committedWhileParked := false
+		if parked {
+			select {
+			case err := <-wdone:
+				committedWhileParked = true
+				wdone <- err
+			case <-time.After(150 * time.Millisecond):
+				// the writer waits for a lock the parked reader holds: release the reader first
+			}
+			ps.release <- struct{}{}
+			w.count("pause_overlaps", 1)
+			if committedWhileParked {
+				w.count("pause_overlaps_commit_completed_while_parked", 1)
+			}
+		}
+		r := <-rdone
+		if err := <-wdone; err != nil {
+			w.bad("conc|pause|save-error", "%v", err)
+			break
+		}
+		want := snap[string(k)]
+		if r.err != nil || string(r.val) != want {
+			w.bad("conc|pause|reader-result", "reader of version %d parked in its storage read of %q returned (%q,%v), committed contents say %q", latest, k, r.val, r.err, want)
+		}
+		// quiescent: every published version reads exactly (the just committed one first)
+		w.mu.Lock()
+		pub := append([]int64(nil), w.published...)
+		w.mu.Unlock()
+		for i := len(pub) - 1; i >= 0 && i >= len(pub)-3; i-- {
+			v := pub[i]
+			it, err := t.GetImmutable(v)
+			if err != nil {
+				w.bad("conc|pause|getimmutable", "%v", err)
+				continue
+			}
+			got, err := it.Get(k)
+			wv, present := w.snaps[v][string(k)]
+			if err != nil || (got != nil) != present || (present && string(got) != wv) {
+				w.bad("conc|pause|stale-after-overlap", "after a reader overlapped the commit of version %d (parked in a %q-space read), version %d Get(%q)=(%q,%v), committed contents say %q (present=%v)", pub[len(pub)-1], string(rune(space)), v, k, got, err, wv, present)
+			}
+			readBattery(w, t, v, w.snaps[v], w.hashes[v], rng, "after-pause", true)
+		}
+	}
+	for k, n := range w.obs {
+		c.Obs(k, n)
+	}
+	for _, v := range w.viol {
+		c.Violate(0, v.Sig, "%s {%s}", v.Detail, cfg)
+	}
+}
+
 var c06Points = []string{"save:after-commit", "prune:version-deleted", "prune:after-committing-check", "clone:children-fetched"}
 
 func c06Config(i int, tier string) (kind string, cfg c06cfg, point string) {
@@ -797,6 +996,7 @@ func c06Config(i int, tier string) (kind string, cfg c06cfg, point string) {
 		cfg.readers = []int{2, 8, 16}[(i/len(matrix))%3]
 		cfg.rounds = 60
 		cfg.keys = []int{6, 24}[(i/len(matrix))%2]
+		cfg.prepopulate = (i/len(matrix))%2 == 1 || cfg.backend == "memdb-delay"
 		if tier == "thorough" {
 			cfg.rounds = 150
 		}
@@ -808,9 +1008,16 @@ func c06Config(i int, tier string) (kind string, cfg c06cfg, point string) {
 			cfg.rounds = 60
 		}
 		return "hook", cfg, c06Points[(j/4)%len(c06Points)]
-	default:
+	case i < nStress+len(c06Points)*4+8:
 		j := i - nStress - len(c06Points)*4
 		return "pin", c06cfg{cache: []int{0, 1000}[j%2], fast: j%4 < 2, backend: "memdb", keys: 12}, ""
+	default:
+		j := i - nStress - len(c06Points)*4 - 8
+		cfg = c06cfg{cache: []int{0, 1000}[j%2], fast: j%4 < 3, backend: "memdb", keys: 6, rounds: 10}
+		if tier == "thorough" {
+			cfg.rounds = 60
+		}
+		return "pause", cfg, ""
 	}
 }
 
@@ -876,11 +1083,11 @@ func init() {
 			if tier == "thorough" {
 				reps = 30
 			}
-			return 8*reps + len(c06Points)*4 + 8
+			return 8*reps + len(c06Points)*4 + 8 + 8
 		},
 		CaseTimeout: 240e9,
 		Rule: "built with the Go race detector. Case kinds: (stress) 8 configurations {node cache 0/3/100/10000} x {fast index on/off} x {sync pruning, background pruning with the SetCommitting/UnsetCommitting protocol} x {MemDB, MemDB with unsynchronised yields around storage calls, GoLevelDB} x readers in {2,8,16}, repeated 4x (quick) / 30x (thorough): one writer (Set/Remove/SaveVersion/DeleteVersionsTo of versions nobody reads) and N readers that obtain committed versions with GetImmutable and run Get, GetWithIndex, Has, Iterator, IterateRange, GetProof (verified against the commit hash), Export, Hash, GetVersioned - every result compared with the snapshot published at commit; 2 scout goroutines open arbitrary version numbers and the commit/prune/open history is checked with porcupine against the per-version model uncommitted->committed->deleted; background pruning must reach its target within a bound after the writer stops (otherwise inconclusive). " +
-			"(hook) oracle mode: the writer is parked at a verif yield point (after the batch commit and before the latest-version update in SaveVersion; between per-version steps of DeleteVersionsTo; between the committing check and the lock in pruning; in Node.clone) and every reader operation type runs on every published version while it is parked - hook points x reader operations is enumerated. (pin) a version with an open Exporter (plus a second, double-closed export of it) cannot be deleted from another goroutine, its stream is R's complete post-order stream, and the deletion succeeds after Close. " +
+			"(hook) oracle mode: the writer is parked at a verif yield point (after the batch commit and before the latest-version update in SaveVersion; between per-version steps of DeleteVersionsTo; between the committing check and the lock in pruning; in Node.clone) and every reader operation type runs on every published version while it is parked - hook points x reader operations is enumerated. (pause) a reader of the latest version is parked INSIDE its storage read (fast-index entry or node, via a pausing storage wrapper on a freshly opened handle with cold caches) while the writer commits a change of the same key; the reader must return its version's value and afterwards every version must read exactly. (pin) a version with an open Exporter (plus a second, double-closed export of it) cannot be deleted from another goroutine, its stream is R's complete post-order stream, and the deletion succeeds after Close. " +
 			"All race-detector reports of all workers are collected from the race logs, deduplicated by the pair of first iavl frames and reported if both accesses are in iavl. distinct = hash(kind, configuration, repetition); non-trivial = >=20 commits overlapped by >=100 reader operations, or a parked overlap, or a pin check.",
 		Assumptions: []string{"only schedules that happened are judged; race reports are schedule dependent", "the harness' registry (which versions are published / in use) is the monitor's own mutex-guarded state", "readers only read versions the writer has not asked to delete (as the property states)"},
 		WorkerEnv: func(work string, shard int) []string {
@@ -900,11 +1107,14 @@ func init() {
 			case "pin":
 				runExportPin(c, cfg)
 				c.Res.Nontrivial = true
+			case "pause":
+				runSeamPause(c, cfg)
+				c.Res.Nontrivial = c.Res.Obs["pause_overlaps"] > 0
 			}
 		},
 		Post: postRaceLogs,
 		Floor: func(obs map[string]int, evals, nontrivial int) string {
-			for _, k := range []string{"reads_Get", "reads_GetWithIndex", "reads_Has", "reads_Iterator", "reads_IterateRange", "reads_GetProof", "reads_Export", "reads_HashAndGetByIndex", "commits", "prunes", "export_pins_checked", "visibility_histories_linearizable", "hook_overlaps_save:after-commit", "hook_overlaps_prune:version-deleted"} {
+			for _, k := range []string{"reads_Get", "reads_GetWithIndex", "reads_Has", "reads_Iterator", "reads_IterateRange", "reads_GetProof", "reads_Export", "reads_HashAndGetByIndex", "commits", "prunes", "export_pins_checked", "visibility_histories_linearizable", "hook_overlaps_save:after-commit", "hook_overlaps_prune:version-deleted", "pause_overlaps"} {
 				if obs[k] < 4 {
 					return fmt.Sprintf("observation %s=%d below floor", k, obs[k])
 				}
